@@ -42,9 +42,9 @@ Proof. constructor; vm_compute; repeat split; congruence. Qed.
 
 (* ---------- the part of the state the invariant talks about ---------- *)
 Record core := mkcore { c_reg : Z; c_rpc : option rpc; c_esp : list Z; c_recv : list Z; c_link : Z;
-                        c_cs : bool; c_cc : bool; c_conn : Z }.
+                        c_cs : bool; c_cc : bool; c_conn : Z; c_tstop : timer }.
 Definition core_of (s : st) : core :=
-  mkcore (registered s) (srpc s) (espbuf s) (recvbuf s) (link s) (clrstop s) (clrconn s) (conn s).
+  mkcore (registered s) (srpc s) (espbuf s) (recvbuf s) (link s) (clrstop s) (clrconn s) (conn s) (t_stop s).
 
 Ltac stsimp := cbn [now boot cycles0 lat lati fired seqc t_wifi t_timer1 t_iter t_wd t_recon t_stop t_value t_gpio2 wstatus wlast
   link liveres deadres script started registered srpc espbuf recvbuf lastresp lastsent nextwd actto resolving gstate conn wbuf
@@ -53,15 +53,16 @@ Ltac stsimp := cbn [now boot cycles0 lat lati fired seqc t_wifi t_timer1 t_iter 
   set_t_value set_t_gpio2 set_wstatus set_wlast set_link set_liveres set_deadres set_script set_started set_registered set_srpc
   set_espbuf set_recvbuf set_lastresp set_lastsent set_nextwd set_actto set_resolving set_gstate set_conn set_wbuf set_stalled
   set_outs set_halted set_stuck set_regpay set_clrstop set_clrconn set_evi
-  core_of c_reg c_rpc c_esp c_recv c_link c_cs c_cc c_conn] in *.
+  core_of c_reg c_rpc c_esp c_recv c_link c_cs c_cc c_conn c_tstop] in *.
 
 (* functions that do not touch the core *)
 Lemma core_emit k a s : core_of (emit k a s) = core_of s. Proof. reflexivity. Qed.
-Lemma core_set_tm i v s : core_of (set_tm i v s) = core_of s. Proof. destruct i; reflexivity. Qed.
-Lemma core_arm i ms rep s : core_of (arm i ms rep s) = core_of s.
-Proof. unfold arm. rewrite core_set_tm. reflexivity. Qed.
-Lemma core_disarm i s : core_of (disarm i s) = core_of s.
-Proof. unfold disarm. apply core_set_tm. Qed.
+Lemma core_set_tm i v s : i <> T_stop -> core_of (set_tm i v s) = core_of s.
+Proof. destruct i; intros H; try reflexivity. contradiction. Qed.
+Lemma core_arm i ms rep s : i <> T_stop -> core_of (arm i ms rep s) = core_of s.
+Proof. intros H. unfold arm. rewrite core_set_tm by auto. reflexivity. Qed.
+Lemma core_disarm i s : i <> T_stop -> core_of (disarm i s) = core_of s.
+Proof. intros H. unfold disarm. apply core_set_tm; auto. Qed.
 Lemma core_decode k s : core_of (decode k s) = core_of s.
 Proof.
   revert s; induction k as [|k IH]; intros s; cbn [decode]; [reflexivity|].
@@ -77,7 +78,7 @@ Proof. unfold gpio_state_disconnected. destruct (_ =? _); reflexivity. Qed.
 Lemma core_gpio_ip s : core_of (gpio_state_ipreceived s) = core_of s.
 Proof. unfold gpio_state_ipreceived. destruct (_ =? _); reflexivity. Qed.
 Lemma core_gpio_conn s : core_of (gpio_state_connected s) = core_of s.
-Proof. unfold gpio_state_connected. destruct (_ =? _); [reflexivity|]. rewrite core_arm. reflexivity. Qed.
+Proof. unfold gpio_state_connected. destruct (_ =? _); [reflexivity|]. rewrite core_arm by discriminate. reflexivity. Qed.
 Lemma core_sdk_sent s : core_of (snd (sdk_sent s)) = core_of s.
 Proof. unfold sdk_sent. destruct (script s); reflexivity. Qed.
 Lemma core_restart s : core_of (restart s) = core_of s. Proof. reflexivity. Qed.
@@ -102,7 +103,10 @@ Record InvC (c : core) : Prop := {
   i_none_link : c_rpc c = None -> c_link c <> L_LIVE;
   i_none_clean : c_cs c = true -> c_rpc c = None -> c_esp c = [] /\ c_recv c = [];
   i_pending : c_link c = L_PENDING -> c_rpc c = None;
-  i_inst : forall p, c_rpc c = Some p -> sid p = c_conn c /\ PInst (c_reg c) p
+  i_inst : forall p, c_rpc c = Some p -> sid p = c_conn c /\ PInst (c_reg c) p;
+  (* a refusal / version error dispatched at time t has armed the stop timer for t + stop delay *)
+  i_stop : forall p t, c_rpc c = Some p -> refused_at p = Some t ->
+           armed (c_tstop c) = true /\ due (c_tstop c) = t + STOP_DELAY_MS * 1000
 }.
 Definition Inv (s : st) : Prop := InvC (core_of s).
 
@@ -110,20 +114,21 @@ Lemma Inv_core s s' : core_of s' = core_of s -> Inv s -> Inv s'.
 Proof. unfold Inv; intros ->; auto. Qed.
 
 (* core changes of the leaf functions that do touch it *)
-Definition with_esp (e : list Z) (c : core) := mkcore (c_reg c) (c_rpc c) e (c_recv c) (c_link c) (c_cs c) (c_cc c) (c_conn c).
-Definition with_recv (e : list Z) (c : core) := mkcore (c_reg c) (c_rpc c) (c_esp c) e (c_link c) (c_cs c) (c_cc c) (c_conn c).
-Definition with_link (l : Z) (c : core) := mkcore (c_reg c) (c_rpc c) (c_esp c) (c_recv c) l (c_cs c) (c_cc c) (c_conn c).
-Definition with_rpc (p : option rpc) (c : core) := mkcore (c_reg c) p (c_esp c) (c_recv c) (c_link c) (c_cs c) (c_cc c) (c_conn c).
-Definition with_reg (r : Z) (c : core) := mkcore r (c_rpc c) (c_esp c) (c_recv c) (c_link c) (c_cs c) (c_cc c) (c_conn c).
+Definition with_esp (e : list Z) (c : core) := mkcore (c_reg c) (c_rpc c) e (c_recv c) (c_link c) (c_cs c) (c_cc c) (c_conn c) (c_tstop c).
+Definition with_recv (e : list Z) (c : core) := mkcore (c_reg c) (c_rpc c) (c_esp c) e (c_link c) (c_cs c) (c_cc c) (c_conn c) (c_tstop c).
+Definition with_link (l : Z) (c : core) := mkcore (c_reg c) (c_rpc c) (c_esp c) (c_recv c) l (c_cs c) (c_cc c) (c_conn c) (c_tstop c).
+Definition with_rpc (p : option rpc) (c : core) := mkcore (c_reg c) p (c_esp c) (c_recv c) (c_link c) (c_cs c) (c_cc c) (c_conn c) (c_tstop c).
+Definition with_tstop (t : timer) (c : core) := mkcore (c_reg c) (c_rpc c) (c_esp c) (c_recv c) (c_link c) (c_cs c) (c_cc c) (c_conn c) t.
+Definition with_reg (r : Z) (c : core) := mkcore r (c_rpc c) (c_esp c) (c_recv c) (c_link c) (c_cs c) (c_cc c) (c_conn c) (c_tstop c).
 
-Lemma core_eta c : mkcore (c_reg c) (c_rpc c) (c_esp c) (c_recv c) (c_link c) (c_cs c) (c_cc c) (c_conn c) = c.
+Lemma core_eta c : mkcore (c_reg c) (c_rpc c) (c_esp c) (c_recv c) (c_link c) (c_cs c) (c_cc c) (c_conn c) (c_tstop c) = c.
 Proof. destruct c; reflexivity. Qed.
 
 (* buffers may change freely while an SRPC instance exists *)
 Lemma InvC_esp e c : InvC c -> c_rpc c <> None -> InvC (with_esp e c).
-Proof. intros [FX FY A B C D E F] H. constructor; cbn; auto. intros _ Hn; contradiction. Qed.
+Proof. intros [FX FY A B C D E F ST] H. constructor; cbn; auto. intros _ Hn; contradiction. Qed.
 Lemma InvC_recv e c : InvC c -> c_rpc c <> None -> InvC (with_recv e c).
-Proof. intros [FX FY A B C D E F] H. constructor; cbn; auto. intros _ Hn; contradiction. Qed.
+Proof. intros [FX FY A B C D E F ST] H. constructor; cbn; auto. intros _ Hn; contradiction. Qed.
 
 Lemma core_append_buffer b s : exists e, core_of (append_buffer b s) = with_esp e (core_of s).
 Proof.
@@ -207,11 +212,12 @@ Proof.
   - intros H1 x [Hx|Hin]; [|apply C; auto]. subst x.
     destruct (originated c) eqn:E; [|reflexivity]. exfalso. apply H1. auto.
 Qed.
-Lemma InvC_rpc c p p' : InvC c -> c_rpc c = Some p -> sid p' = sid p -> PInst (c_reg c) p' -> InvC (with_rpc (Some p') c).
+Lemma InvC_rpc c p p' : InvC c -> c_rpc c = Some p -> sid p' = sid p -> refused_at p' = refused_at p -> PInst (c_reg c) p' -> InvC (with_rpc (Some p') c).
 Proof.
-  intros [FX FY A B C D E F] Hp Hs HP. constructor; cbn; try (intros; discriminate); auto.
+  intros [FX FY A B C D E F ST] Hp Hs Hrf HP. constructor; cbn; try (intros; discriminate); auto.
   - intros Hl. rewrite (E Hl) in Hp. discriminate.
   - intros q Hq. inversion Hq; subst q. split; auto. rewrite Hs. apply (F p Hp).
+  - intros q t Hq Hr. inversion Hq; subst q. rewrite Hrf in Hr. apply (ST p t Hp Hr).
 Qed.
 
 Definition Act (s : st) : Prop := Inv s /\ registered s <> 0 /\ srpc s <> None.
@@ -240,7 +246,7 @@ Proof.
   destruct consts_ok as [Cq Creg].
   replace (0 <? QUEUE_SIZE) with true by (symmetry; apply Z.ltb_lt; exact Cq).
   split; [|split; stsimp; [lia|discriminate]].
-  destruct HI as [FX FY A B C D F G]. constructor; cbn in *; try (intros; discriminate); auto.
+  destruct HI as [FX FY A B C D F G ST]. constructor; cbn in *; try (intros; discriminate); auto.
   - intros Hl. rewrite (F Hl) in E. discriminate.
   - intros q Hq'. inversion Hq'; subst q; cbn. split; auto.
     constructor; cbn.
@@ -248,15 +254,9 @@ Proof.
     + intros _. exists []. rewrite Hh. split; [reflexivity|]. intros ? [].
     + intros _ x [Hx|Hin]; [subst x; apply originated_REG | rewrite Hh in Hin; destruct Hin].
     + rewrite Hg. split; intros; [lia|discriminate].
+  - intros q t Hq' Ht. inversion Hq'; subst q; cbn in Ht. rewrite Hrf in Ht. discriminate.
 Qed.
 
-Lemma mark_refused_act s : Act s -> Act (mark_refused s).
-Proof.
-  intros [HI [Hr Hn]]. unfold mark_refused. destruct (srpc s) as [p|] eqn:E; [|contradiction].
-  split; [|split; stsimp; auto; discriminate].
-  apply (InvC_rpc (core_of s) p); auto. cbn. apply (PInst_same _ p); auto.
-  exact (proj2 (i_inst _ HI p E)).
-Qed.
 Lemma Act_core s s' : core_of s' = core_of s -> Act s -> Act s'.
 Proof.
   intros H [HI [Hr Hn]]. assert (registered s' = registered s) by (change (c_reg (core_of s') = c_reg (core_of s)); rewrite H; reflexivity).
@@ -264,7 +264,18 @@ Proof.
   split; [eapply Inv_core; eauto|]. split; congruence.
 Qed.
 Lemma stop_with_delay_act s : Act s -> Act (stop_with_delay s).
-Proof. intros H. unfold stop_with_delay. eapply Act_core; [apply core_arm|]. apply mark_refused_act; auto. Qed.
+Proof.
+  intros [HI [Hr Hn]]. unfold stop_with_delay, mark_refused. destruct (srpc s) as [p|] eqn:E; [|contradiction].
+  set (p' := mkrpc (sid p) (rr_last p) (oq p) (obuf p) (ibuf p) (hist p) (got_ok p) (Some (now s)) (created_at p)).
+  set (s' := arm T_stop STOP_DELAY_MS false (set_srpc (Some p') s)).
+  assert (C : core_of s' = with_tstop (mktimer true (now s + STOP_DELAY_MS * 1000) (seqc s + 1) 0) (with_rpc (Some p') (core_of s))) by reflexivity.
+  split; [|split; [exact Hr|change (c_rpc (core_of s') <> None); rewrite C; discriminate]].
+  unfold Inv. rewrite C. destruct (i_inst _ HI p E) as [Hsid HP]. cbn in Hsid, HP.
+  destruct HI as [FX FY A B C0 D F G ST]. constructor; cbn in *; try (intros; discriminate); auto.
+  - intros Hl. rewrite (F Hl) in E. discriminate.
+  - intros q Hq. inversion Hq; subst q. split; auto. apply (PInst_same _ p); auto.
+  - intros q t Hq Ht. inversion Hq; subst q. cbn in Ht. inversion Ht; subst t. split; reflexivity.
+Qed.
 
 Lemma Act_esp e s s' : core_of s' = with_esp e (core_of s) -> Act s -> Act s'.
 Proof.
@@ -286,16 +297,17 @@ Proof.
   assert (A2 : Act s2 /\ registered s2 = 1).
   { split; [|reflexivity]. split; [|split; subst s2 s1; stsimp; [lia|discriminate]].
     destruct (i_inst _ HI p E) as [Hsid HP]. cbn in Hsid, HP.
-    destruct HI as [FX FY A B C D F G]. constructor; cbn in *; try (intros; discriminate); auto.
+    destruct HI as [FX FY A B C D F G ST]. constructor; cbn in *; try (intros; discriminate); auto.
     - intros Hl. rewrite (F Hl) in E. discriminate.
     - intros q Hq. inversion Hq; subst q; cbn. split; auto.
-      destruct HP as [P1 P2 P3 P4]. constructor; cbn; [intros; lia | intros _; auto | intros; contradiction | split; auto]. }
+      destruct HP as [P1 P2 P3 P4]. constructor; cbn; [intros; lia | intros _; auto | intros; contradiction | split; auto].
+    - intros q t Hq Ht. inversion Hq; subst q; cbn in Ht. apply (ST p t E Ht). }
   destruct A2 as [A2 R2].
   assert (A3 : Act (gpio_state_connected s2) /\ registered (gpio_state_connected s2) = 1).
   { split; [eapply Act_core; [apply core_gpio_conn|auto]|].
     change (c_reg (core_of (gpio_state_connected s2)) = 1). rewrite core_gpio_conn. exact R2. }
   destruct A3 as [A3 R3].
-  eapply Act_core; [apply core_arm|]. eapply Act_core; [apply core_disarm|].
+  eapply Act_core; [apply core_arm; discriminate|]. eapply Act_core; [apply core_disarm; discriminate|].
   destruct (tmo =? ACTIVITY_TIMEOUT_DEFAULT); auto.
   apply async_call_act; auto; try apply consts_ok.
 Qed.
@@ -312,9 +324,10 @@ Proof.
   apply async_call_act; auto. rewrite C2. discriminate.
 Qed.
 
-Lemma set_rpc_same_act s p p' : Act s -> srpc s = Some p -> sid p' = sid p -> hist p' = hist p -> got_ok p' = got_ok p -> Act (set_srpc (Some p') s).
+Lemma set_rpc_same_act s p p' : Act s -> srpc s = Some p -> sid p' = sid p -> hist p' = hist p -> got_ok p' = got_ok p ->
+  refused_at p' = refused_at p -> Act (set_srpc (Some p') s).
 Proof.
-  intros [HI [Hr Hn]] E Hs Hh Hg. split; [|split; stsimp; auto; discriminate].
+  intros [HI [Hr Hn]] E Hs Hh Hg Hrf. split; [|split; stsimp; auto; discriminate].
   apply (InvC_rpc (core_of s) p); auto. cbn. apply (PInst_same _ p); auto. exact (proj2 (i_inst _ HI p E)).
 Qed.
 
@@ -361,17 +374,17 @@ Proof.
 Qed.
 
 (* ---------- stop / start / reconnect ---------- *)
-Lemma InvC_stopped c l e r : InvC c -> l <> L_LIVE -> l <> L_PENDING -> (c_cs c = true -> e = [] /\ r = []) ->
-  InvC (mkcore 0 None e r l (c_cs c) (c_cc c) (c_conn c)).
+Lemma InvC_stopped c l e r t : c_cs c = cs -> c_cc c = cc -> l <> L_LIVE -> l <> L_PENDING -> (c_cs c = true -> e = [] /\ r = []) ->
+  InvC (mkcore 0 None e r l (c_cs c) (c_cc c) (c_conn c) t).
 Proof.
-  intros [FX FY A B C D F G] H1 H2 H3. constructor; cbn; auto; try (intros; discriminate); try (intros; contradiction).
+  intros FX FY H1 H2 H3. constructor; cbn; auto; try (intros; discriminate); try (intros; contradiction).
 Qed.
 
-Lemma devconn_stop_inv s : Inv s -> Inv (devconn_stop s) /\ srpc (devconn_stop s) = None.
+Lemma devconn_stop_inv s : clrstop s = cs -> clrconn s = cc -> Inv (devconn_stop s) /\ srpc (devconn_stop s) = None.
 Proof.
-  intros HI. unfold devconn_stop.
+  intros FX FY. unfold devconn_stop.
   set (s2 := disarm T_iter (disarm T_timer1 (set_started false (set_registered 0 s)))).
-  assert (C2 : core_of s2 = with_reg 0 (core_of s)) by (subst s2; rewrite !core_disarm; reflexivity).
+  assert (C2 : core_of s2 = with_reg 0 (core_of s)) by (subst s2; rewrite !core_disarm by discriminate; reflexivity).
   pose proof (core_sdk_disconnect s2) as C3. rewrite C2 in C3.
   assert (L2 : link s2 = link s) by (change (c_link (core_of s2) = link s); rewrite C2; reflexivity).
   rewrite L2 in C3.
@@ -393,7 +406,7 @@ Proof.
 Qed.
 
 Lemma InvC_link_none c l : InvC c -> c_rpc c = None -> l <> L_LIVE -> InvC (with_link l c).
-Proof. intros [FX FY A B C D F G] Hn Hl. constructor; cbn; auto. Qed.
+Proof. intros [FX FY A B C D F G ST] Hn Hl. constructor; cbn; auto. Qed.
 
 Lemma resolvandconnect_inv s : Inv s -> srpc s = None -> Inv (resolvandconnect s) /\ srpc (resolvandconnect s) = None.
 Proof.
@@ -444,9 +457,9 @@ Proof.
     - split; auto. intros; congruence. }
   destruct I3 as [I3 N3].
   split.
-  - eapply Inv_core; [|exact I3]. rewrite core_arm, core_disarm. reflexivity.
+  - eapply Inv_core; [|exact I3]. rewrite core_arm, core_disarm by discriminate. reflexivity.
   - intros Hn. change (c_rpc (core_of (arm T_wifi WIFI_CHECK_MS true (disarm T_wifi s3))) = None).
-    rewrite core_arm, core_disarm. apply N3; auto.
+    rewrite core_arm, core_disarm by discriminate. apply N3; auto.
 Qed.
 
 Lemma devconn_start_inv s : Inv s -> Inv (devconn_start s) /\ (srpc s = None -> srpc (devconn_start s) = None).
@@ -457,16 +470,16 @@ Proof.
   assert (I1 : Inv s1) by (eapply Inv_core; eauto).
   destruct (wifi_station_connect_inv s1 I1) as [I2 N2].
   split.
-  - eapply Inv_core; [|exact I2]. rewrite core_arm, !core_disarm. reflexivity.
+  - eapply Inv_core; [|exact I2]. rewrite core_arm, !core_disarm by discriminate. reflexivity.
   - intros Hn. change (c_rpc (core_of (arm T_timer1 TIMER1_MS true (disarm T_timer1 (disarm T_recon (wifi_station_connect s1))))) = None).
-    rewrite core_arm, !core_disarm. apply N2. change (c_rpc (core_of s1) = None). rewrite C1. exact Hn.
+    rewrite core_arm, !core_disarm by discriminate. apply N2. change (c_rpc (core_of s1) = None). rewrite C1. exact Hn.
 Qed.
 
 Lemma devconn_reconnect_inv s : Inv s -> Inv (devconn_reconnect s).
 Proof.
   intros HI. unfold devconn_reconnect.
   assert (I0 : Inv (set_nextwd (uptime s + WATCHDOG_SOFT_TIMEOUT_S) s)) by (eapply Inv_core; [|eauto]; reflexivity).
-  destruct (devconn_stop_inv _ I0) as [I1 _]. apply devconn_start_inv; auto.
+  destruct (devconn_stop_inv (set_nextwd (uptime s + WATCHDOG_SOFT_TIMEOUT_S) s) (i_cs _ HI) (i_cc _ HI)) as [I1 _]. apply devconn_start_inv; auto.
 Qed.
 
 (* ---------- callbacks ---------- *)
@@ -494,18 +507,28 @@ Proof.
   - apply devconn_iterate_inv; auto.
   - apply watchdog_cb_inv; auto.
   - apply devconn_reconnect_inv; auto.
-  - apply devconn_stop_inv; auto.
+  - apply devconn_stop_inv; [apply (i_cs _ HI)|apply (i_cc _ HI)].
 Qed.
+Definition tid_eq_dec (a b : tid) : {a = b} + {a <> b}.
+Proof. decide equality. Defined.
 Lemma core_lateness s : core_of (snd (lateness s)) = core_of s.
 Proof. unfold lateness. destruct (lat s); reflexivity. Qed.
 Lemma fire_inv i s : Inv s -> Inv (fire i s).
 Proof.
   intros HI. unfold fire. pose proof (core_lateness s) as CL. destruct (lateness s) as [l s0]. cbn [snd] in CL.
-  apply callback_inv. eapply Inv_core; [|exact HI].
-  change (core_of (set_fired ?x ?y)) with (core_of y).
   set (s1 := if now s0 <? _ then _ else s0).
   assert (C1 : core_of s1 = core_of s) by (subst s1; destruct (_ <? _); rewrite <- CL; reflexivity).
-  destruct (0 <? period (get_tm i s)); rewrite core_set_tm; auto.
+  destruct (tid_eq_dec i T_stop) as [->|Hne].
+  - (* the stop timer itself: __stop does not depend on the timer state *)
+    cbn [callback]. apply devconn_stop_inv.
+    + change (c_cs (core_of s1) = cs) || idtac.
+      destruct (0 <? period (get_tm T_stop s)); cbn [set_tm]; stsimp;
+        [change (clrstop s1 = cs)|change (clrstop s1 = cs)]; change (c_cs (core_of s1) = cs); rewrite C1; apply (i_cs _ HI).
+    + destruct (0 <? period (get_tm T_stop s)); cbn [set_tm]; stsimp;
+        [change (clrconn s1 = cc)|change (clrconn s1 = cc)]; change (c_cc (core_of s1) = cc); rewrite C1; apply (i_cc _ HI).
+  - apply callback_inv. eapply Inv_core; [|exact HI].
+    change (core_of (set_fired ?x ?y)) with (core_of y).
+    destruct (0 <? period (get_tm i s)); rewrite core_set_tm by auto; auto.
 Qed.
 Lemma advance_inv k fin s : Inv s -> Inv (advance k fin s).
 Proof.
@@ -562,8 +585,8 @@ Proof.
   pose proof (i_none_reg _ HI Hn) as Hr. cbn in Hr.
   unfold connect_cb.
   set (s2 := arm T_iter ITERATE_MS true (set_srpc (Some (mkrpc (conn s1) 0 [] [] empty_inb [] false None (now s1))) s1)).
-  assert (C2 : core_of s2 = mkcore 0 (Some (fresh_instance (conn s + 1) (now s))) (espbuf s) (recvbuf s) L_LIVE (clrstop s) (clrconn s) (conn s + 1)).
-  { subst s2. rewrite core_arm. subst s1. unfold core_of. stsimp. rewrite Hr. reflexivity. }
+  assert (C2 : core_of s2 = mkcore 0 (Some (fresh_instance (conn s + 1) (now s))) (espbuf s) (recvbuf s) L_LIVE (clrstop s) (clrconn s) (conn s + 1) (t_stop s)).
+  { subst s2. rewrite core_arm by discriminate. subst s1. unfold core_of. stsimp. rewrite Hr. reflexivity. }
   assert (PF : forall t, PInst 0 (fresh_instance (conn s + 1) t)).
   { intros t. constructor; cbn.
     - intros _. repeat split.
@@ -571,10 +594,11 @@ Proof.
     - intros _ c [].
     - split; intros; discriminate. }
   destruct consts_ok as [? ? ? ? ? [K1 [K2 [K3 [K4 K5]]]]].
-  assert (IG : forall e r, InvC (mkcore 0 (Some (fresh_instance (conn s + 1) (now s))) e r L_LIVE (clrstop s) (clrconn s) (conn s + 1))).
+  assert (IG : forall e r, InvC (mkcore 0 (Some (fresh_instance (conn s + 1) (now s))) e r L_LIVE (clrstop s) (clrconn s) (conn s + 1) (t_stop s))).
   { intros e r. pose proof (i_cs _ HI) as F1. pose proof (i_cc _ HI) as F2. cbn in F1, F2.
     constructor; cbn; auto; try (intros; discriminate).
-    intros p Hp. inversion Hp; subst p. split; [reflexivity|apply PF]. }
+    - intros p Hp. inversion Hp; subst p. split; [reflexivity|apply PF].
+    - intros p t Hp Ht. inversion Hp; subst p. discriminate Ht. }
   assert (AUX : forall s' c0, core_of s' = c0 -> InvC c0 ->
             Inv s' /\ registered s' = c_reg c0 /\ srpc s' = c_rpc c0 /\ conn s' = c_conn c0 /\ link s' = c_link c0 /\
             espbuf s' = c_esp c0 /\ recvbuf s' = c_recv c0).
@@ -606,7 +630,7 @@ Proof.
     rewrite core_gpio_ip. change (core_of (set_link L_IDLE s1')) with (with_link L_IDLE (core_of s1)). rewrite C1. reflexivity. }
   assert (I2 : Inv s2).
   { unfold Inv. rewrite C2. destruct consts_ok as [? ? ? ? ? [K1 [K2 [K3 [K4 K5]]]]].
-    destruct HI as [FX FY A B C D F G]. constructor; cbn in *; auto. intros Hl. contradiction. }
+    destruct HI as [FX FY A B C D F G ST]. constructor; cbn in *; auto. intros Hl. contradiction. }
   destruct (started s2); auto.
 Qed.
 
@@ -637,7 +661,7 @@ Proof.
   unfold boot_device.
   set (s2 := arm T_wd WATCHDOG_MS true _).
   apply devconn_start_inv.
-  eapply Inv_core; [subst s2; rewrite core_arm; reflexivity|].
+  eapply Inv_core; [subst s2; rewrite core_arm by discriminate; reflexivity|].
   unfold Inv, init0. cbn.
   destruct consts_ok as [? ? ? ? ? [K1 [K2 [K3 [K4 K5]]]]].
   constructor; cbn; auto; try (intros; discriminate).
@@ -696,6 +720,109 @@ Proof.
   change (clrstop s1) with (clrstop s) in B. change (clrconn s1) with (clrconn s) in B.
   rewrite F1, F2 in B. destruct (B Hc) as [B1 B2]. auto.
 Qed.
+
+(* ---------- refusal: the stop timer ---------- *)
+Definition pick_f (s : st) (fin : Z) (best : option tid) (i : tid) : option tid :=
+  let t := get_tm i s in
+  if armed t && (due t <=? fin) then
+    match best with None => Some i | Some b => if better s i b then Some i else best end
+  else best.
+Lemma pick_eq s fin : pick s fin = fold_left (pick_f s fin) all_tids None. Proof. reflexivity. Qed.
+Lemma pick_f_some s fin l : forall b, fold_left (pick_f s fin) l (Some b) <> None.
+Proof.
+  induction l as [|i l IH]; intros b; cbn [fold_left]; [discriminate|].
+  unfold pick_f at 2. destruct (_ && _); [destruct (better s i b)|]; apply IH.
+Qed.
+Lemma pick_f_none s fin l : fold_left (pick_f s fin) l None = None ->
+  forall i, In i l -> armed (get_tm i s) && (due (get_tm i s) <=? fin) = false.
+Proof.
+  induction l as [|j l IH]; intros H i Hin; [destruct Hin|].
+  cbn [fold_left] in H. unfold pick_f at 2 in H.
+  destruct (armed (get_tm j s) && (due (get_tm j s) <=? fin)) eqn:E.
+  - exfalso. eapply pick_f_some; eauto.
+  - destruct Hin as [<-|Hin]; auto.
+Qed.
+Lemma all_tids_complete i : In i all_tids.
+Proof. destruct i; cbn; tauto. Qed.
+Lemma pick_none s fin : pick s fin = None -> forall i, armed (get_tm i s) = true -> fin < due (get_tm i s).
+Proof.
+  intros H i Ha. rewrite pick_eq in H. pose proof (pick_f_none s fin all_tids H i (all_tids_complete i)) as E.
+  rewrite Ha in E. cbn [andb] in E. apply Z.leb_gt in E. exact E.
+Qed.
+
+(* when an Adv step is over (and the model's fuel was sufficient) no armed timer is due at or before the target time *)
+Lemma advance_no_due_left k : forall fin s, let s' := advance k fin s in
+  halted s' = false -> stuck s' = false -> forall i, armed (get_tm i s') = true -> fin < due (get_tm i s').
+Proof.
+  induction k as [|k IH]; intros fin s; cbn [advance].
+  - destruct (halted s) eqn:Hh; [intros H; congruence|].
+    destruct (pick s fin) eqn:P.
+    + intros _ H. discriminate H.
+    + intros _ _ i Ha.
+      assert (E : get_tm i (if now s <? fin then set_now fin s else s) = get_tm i s) by (destruct (now s <? fin); destruct i; reflexivity).
+      rewrite E in *. apply (pick_none s fin P i Ha).
+  - destruct (halted s) eqn:Hh; [intros H; congruence|].
+    destruct (pick s fin) eqn:P.
+    + apply IH.
+    + intros _ _ i Ha.
+      assert (E : get_tm i (if now s <? fin then set_now fin s else s) = get_tm i s) by (destruct (now s <? fin); destruct i; reflexivity).
+      rewrite E in *. apply (pick_none s fin P i Ha).
+Qed.
+
+Lemma outs_wire_close x s : In x (outs s) -> In x (outs (wire_close s)).
+Proof. unfold wire_close. destruct (_ || _); cbn; auto. Qed.
+Lemma devconn_stop_disconnects s : In (mk O_DISCONNECT [now s] []) (outs (devconn_stop s)) /\ srpc (devconn_stop s) = None /\ started (devconn_stop s) = false.
+Proof.
+  unfold devconn_stop.
+  set (s2 := disarm T_iter (disarm T_timer1 (set_started false (set_registered 0 s)))).
+  assert (N2 : now s2 = now s) by reflexivity.
+  assert (H3 : In (mk O_DISCONNECT [now s] []) (outs (sdk_disconnect s2)) /\ started (sdk_disconnect s2) = false).
+  { unfold sdk_disconnect. rewrite N2. set (s1 := emit O_DISCONNECT [now s] s2).
+    assert (I1 : In (mk O_DISCONNECT [now s] []) (outs s1)) by (left; reflexivity).
+    assert (S1 : started s1 = false) by reflexivity.
+    destruct (link s1 =? L_LIVE).
+    - split; [apply outs_wire_close in I1; exact I1|]. unfold wire_close. destruct (_ || _); reflexivity.
+    - destruct (link s1 =? L_PENDING); split; auto. }
+  destruct H3 as [H3 S3].
+  destruct (clrstop (set_srpc None (sdk_disconnect s2))); repeat split; auto.
+Qed.
+
+(* C04_refusal_stops: an SRPC instance on which a refusal / version error was dispatched at time t keeps the stop timer
+   armed for t + stop delay, so that once an Adv step has passed that time the instance is gone (or was refused again later);
+   the instance is ended by __stop, which calls espconn_disconnect. *)
+Theorem C04_refusal_stops_thm : sites_ok CallSites = true -> forall s p t,
+  reachable s -> srpc s = Some p -> refused_at p = Some t ->
+  armed (t_stop s) = true /\ due (t_stop s) = t + STOP_DELAY_MS * 1000 /\
+  (forall dt, 0 <= dt -> halted s = false -> stuck s = false ->
+     let s' := step s (Adv dt) in halted s' = false -> stuck s' = false ->
+     forall p' t', srpc s' = Some p' -> refused_at p' = Some t' -> now s + dt < t' + STOP_DELAY_MS * 1000).
+Proof.
+  intros HS s p t HR Hp Ht. pose proof (reachable_inv _ HS HR) as HI.
+  destruct (i_stop _ HI p t Hp Ht) as [A D]. cbn in A, D. split; [exact A|]. split; [exact D|].
+  intros dt Hdt Hh Hst s' Hh' Hst' p' t' Hp' Ht'.
+  assert (HR' : reachable s').
+  { destruct HR as [b [cyc [d [pay [lt [evs ->]]]]]]. exists b, cyc, d, pay, lt, (evs ++ [Adv dt]).
+    subst s'. clear. revert evs. intros evs. generalize (boot_device b cyc d pay lt cs cc) as s0.
+    induction evs as [|e r IH]; intros s0; cbn [run_from app]; auto. }
+  pose proof (reachable_inv _ HS HR') as HI'.
+  destruct (i_stop _ HI' p' t' Hp' Ht') as [A' D']. cbn in A', D'.
+  subst s'. unfold step in *.
+  set (s1 := set_evi (evi s + 1) s) in *.
+  change (halted s1) with (halted s) in *. change (stuck s1) with (stuck s) in *. rewrite Hh, Hst in *. cbn [orb env_allows dev_step] in *.
+  replace (dt <? 0) with false in * by (symmetry; apply Z.ltb_ge; auto).
+  pose proof (advance_no_due_left (adv_fuel dt) (now s1 + dt) s1 Hh' Hst' T_stop A') as L.
+  cbn [get_tm] in L. rewrite D' in L. exact L.
+Qed.
+(* dispatching a register result other than TRUE marks the instance as refused now, sends nothing and does not accept *)
+Lemma refusal_marks_thm code tmo s p : srpc s = Some p -> code <> RESULTCODE_TRUE ->
+  let s' := on_register_result code tmo s in
+  exists p', srpc s' = Some p' /\ refused_at p' = Some (now s) /\ hist p' = hist p /\ got_ok p' = got_ok p /\
+             registered s' = registered s /\ outs s' = outs s.
+Proof.
+  intros E Hc. unfold on_register_result. replace (code =? RESULTCODE_TRUE) with false by (symmetry; apply Z.eqb_neq; auto).
+  unfold stop_with_delay, mark_refused. rewrite E. eexists. repeat split; reflexivity.
+Qed.
+
 End Flags.
 
 (* ---------- the code before the proposed fix: stale bytes reach the next connection ---------- *)
@@ -718,3 +845,4 @@ Proof. vm_compute. repeat split; try congruence. eexists; split; reflexivity. Qe
 Lemma C04_witness_repaired_thm :
   espbuf (witness_final true false) = [] /\ espbuf (witness_final false true) = [] /\ conn (witness_final true false) = 2.
 Proof. vm_compute. repeat split. Qed.
+
